@@ -439,6 +439,12 @@ def flag_agreement(ctx, fn, g):
                 stores.append((n.value, C.stmt_node(ctx, fn, n)))
     if len(hc[0].args) > 2 and not sources:
         sources.append((hc[0].args[2], None))
+    if not sources and stores:
+        # the display has no 'align' entry; it is put there by a store that every path to the construction passes
+        always = [st_ for st_ in stores if st_[1] is not None and g.dominates(st_[1], hn)]
+        if always:
+            sources.append(always[0])
+            stores = [st_ for st_ in stores if st_ is not always[0]]
     if len(sources) != 1:
         ctx.undecided("C15.3", fn, "the align argument of the hasher could not be located (%d candidate expressions)" % len(sources), hc[0])
         return
